@@ -168,9 +168,23 @@ def compare(op, a, b):
             return isinstance(op, ast.NotEq)
         return isinstance(op, ast.NotEq)          # NaN compares false
     if isinstance(a, OrderVal) or isinstance(b, OrderVal):
+        tr = getattr(a, "transform", None) or getattr(b, "transform", None)
+        if tr and type(op) in (ast.Lt, ast.LtE, ast.Gt, ast.GtE, ast.Eq, ast.NotEq):
+            # decided here by the order of the exponents; in floating point 2**x is only weakly monotone (neighbouring x collide), so a
+            # comparison at a boundary can come out differently from the comparison of the untransformed values
+            from .absval import W as _W
+            _W.hazards.append(f"a value is compared after the transform {tr} instead of as it is ({a!r} vs {b!r})")
+
         def val(x, other):
             if isinstance(x, OrderVal):
                 return x.rep
+            if isinstance(x, Term) and not x.is_const() and getattr(other, "transform", None):
+                nm = repr(x)
+                if nm.startswith("exp2[") and nm.endswith("]"):
+                    try:
+                        return Fr(2.0 ** float(Fr(nm[5:-1])))            # 2 ** <literal>: its value, to double precision (compared with representatives only)
+                    except (ValueError, ZeroDivisionError):
+                        pass
             if isinstance(x, Term) and x.is_const():
                 x = x.cval()
             if num(x):
@@ -250,6 +264,13 @@ def binop(op, a, b):
         if isinstance(a, (str, tuple, list)) or isinstance(b, (str, tuple, list)):
             raise Undecided("arithmetic on non-number")
         if type(op) is ast.Pow:
+            if num(a) and a == 2 and isinstance(b, OrderVal):
+                # 2 ** (a value known by its order): on the reals the order is kept, so the result is again known by its order -- but see compare()
+                rep = _fr(b.rep)
+                r = OrderVal(f"2**{b.name}", Fr(2) ** int(rep) if rep.denominator == 1 and abs(rep) < 512 else Fr(2.0 ** float(rep)), None, nan=b.nan)
+                r.sym = f_exp2(b.sym)
+                r.transform = "2**x"
+                return r
             if num(a) and a == 2:
                 return f_exp2(b)
             tb = T(b)
@@ -439,7 +460,7 @@ class Interp:
                 elif p in kw:
                     env[p] = kw.pop(p)
                 elif defaults[i] is not None:
-                    env[p] = self.ev(defaults[i], dict(closure_env or {}, __mod__=mod))
+                    env[p] = self.default_value(defaults[i], closure_env, mod)
                 else:
                     raise Undecided(f"missing argument {p} for {getattr(fnode, 'name', '<lambda>')}")
             if a.vararg:
@@ -450,7 +471,7 @@ class Interp:
                 if x.arg in kw:
                     env[x.arg] = kw.pop(x.arg)
                 elif d is not None:
-                    env[x.arg] = self.ev(d, dict(closure_env or {}, __mod__=mod))
+                    env[x.arg] = self.default_value(d, closure_env, mod)
                 else:
                     raise Undecided(f"missing keyword-only argument {x.arg}")
             if a.kwarg:
@@ -474,6 +495,18 @@ class Interp:
             return None
         finally:
             self.depth -= 1
+
+    def default_value(self, node, closure_env, mod):
+        """a parameter default is evaluated once, when the function is defined: for a module-level function or method that is once per
+        process, so a mutable default (`seen={}`) is one object shared by every call"""
+        if closure_env:
+            return self.ev(node, dict(closure_env, __mod__=mod))            # nested function: defined anew on each call of the enclosing one
+        if isinstance(node, ast.Constant):
+            return node.value
+        cache = self.__dict__.setdefault("_default_cache", {})
+        if id(node) not in cache:
+            cache[id(node)] = self.ev(node, {"__mod__": mod})
+        return cache[id(node)]
 
     def closure_for(self, fi, self_obj=None):
         c = Closure(fi.node, {}, fi.mod, fi.qn, self_obj)
